@@ -153,7 +153,9 @@ def diff(a, b, path='$'):
             for i, (u, v) in enumerate(zip(a['d'], b['d'])):
                 if abs(u - v) > 4e-15 * max(1.0, len(a['d']) / 16.0) * sc + 2.0 * resid:
                     return '%s.d[%d]: %r vs %r (scale of stored numbers %r)' % (path, i, u, v, sc)
-            if not close(a['r'], b['r'], rtol=4e-15, scale=max(abs(a['r']), sc)):
+            # the reader forms the replica mean as central value + average of the stored numbers: its rounding is an ulp of
+            # the CENTRAL VALUE (= r - off), which can be much larger than the replica mean itself, plus the residue above
+            if abs(a['r'] - b['r']) > 4e-15 * max(abs(a['r']), sc, abs(a['r'] - a['off'])) + 2.0 * resid:
                 return '%s.r: %r vs %r' % (path, a['r'], b['r'])
             a = {k: v for k, v in a.items() if k not in ('d', 'r', 'off')}
             b = {k: v for k, v in b.items() if k not in ('d', 'r', 'off')}
